@@ -55,7 +55,7 @@ CHECKS = {
 _P = {
  'C07': entry('Lean 4 proof (scatter_argsort; sorted sweep = direct evaluation) + pointwise-vs-vector oracle on the real code',
     'Theorem for every finite time sequence, any order/duplicates: the i-th returned value is the value for the i-th time (instantiated for _accumulate, '
-    'cdf, get_epochs); kernel-checked counterexample for the pre-fix gather. Real vector calls compared with single-time calls for 5 entry points, all '
+    'cdf, pdf (model of its two vector cdf calls, PdfVec), get_epochs); kernel-checked counterexample for the pre-fix gather. Real vector calls compared with single-time calls for 5 entry points, all '
     'container types; model argsort vs numpy.', ''),
  'C08': entry('Lean 4 proof (relabelling invariance of moments/cdf) + metamorphic correspondence incl. PYTHONHASHSEED sweep',
     'Theorems C08_moments_perm / C08_cdf_perm (state level, on the BFS graphs the code builds) and the input-glue model: config_named_semantics, '
